@@ -289,6 +289,14 @@ def check(spec, ctx):
             what = "round trip loses information" if cycle == 1 else f"cycle {cycle} is not a fixpoint"
             ctx.fail(f"{spec['ctype']}: {what}: {diff}", spec, None, None, kind="lossy" if cycle == 1 else "fixpoint")
         cur = loaded
+    # two threads loading at once: this load is suspended at lines inside the library while another thread loads the same file from
+    # start to end; each gets the collection that was saved
+    from soundevent import io
+
+    lkw = {}
+    if spec["audio"] != "none":
+        lkw["audio_dir"] = str(audio)
+    ctx.interleave(spec, f"io.load({spec['ctype']})", lambda: io.load(path, **lkw), lambda: io.load(path, **lkw), same=lambda x, y: type(x) is type(y) and x == y, every=3, max_pauses=40)
 
 
 SUBS = [
